@@ -416,7 +416,65 @@ class RunnerOrderSpec(Spec):
                 'case': {'default_options': cfg, 'order': list(hist)}, 'nontrivial': 1}
 
 
+class PytestOrderSpec(RunnerOrderSpec):
+    """the same orders through one pytest session (plugin front end)"""
+    title = 'pytest --xdoctest on modules holding the doctests in every order'
+    batch = 2
+
+    def enabled(self, S, hist):
+        if S is None:
+            return [('config', c) for c in ('none', 'opt-ellipsis')]
+        return RunnerOrderSpec.enabled(self, S, hist)
+
+    def run_case(self, hist):
+        import pytest
+        base = baselines()
+        cfg = hist[0][1]
+        hist = hist[1:]
+        chunks = re.split(r'^(?=def )', MODSRC, flags=re.M)
+        head = chunks[0] + [c for c in chunks if c.startswith('def getG')][0]
+        body = {re.match(r'def (\w+)', c).group(1): c for c in chunks[1:]}
+        src = head + ''.join(body[n] for n in hist)
+        atoms = []
+        got = {}
+
+        class Rec(object):
+            def pytest_runtest_logreport(self, report):
+                if report.when == 'call' or (report.when == 'setup' and report.outcome != 'passed'):
+                    got[report.nodeid.split('::', 1)[1].split(':')[0]] = report.outcome
+        with harness.scratch_dir('c11p') as d:
+            modname = harness.unique_modname('m11p', src)
+            with open(os.path.join(d, modname + '.py'), 'w') as f:
+                f.write(src)
+            os.environ.pop('XV_F', None)
+            args = ['--xdoctest', '--xdoctest-style=freeform', '-p', 'no:cacheprovider', '-q', '--rootdir', d, '-c', '/dev/null',
+                    modname + '.py']
+            opts = {'none': None, 'opt-ellipsis': '+ELLIPSIS', 'opt-noskip': '-SKIP,+NORMALIZE_WHITESPACE'}[cfg]
+            if opts:
+                args.insert(1, '--xdoctest-options=' + opts)
+            buf = io.StringIO()
+            cwd = os.getcwd()
+            os.chdir(d)
+            try:
+                with contextlib.redirect_stdout(buf), contextlib.redirect_stderr(buf), harness.fresh_process_warning_filters():
+                    pytest.main(args, plugins=[Rec()])
+            except BaseException as ex:
+                if type(ex).__name__ == 'CaseTimeout':
+                    raise
+                atoms.append({'sig': 'isolation:pytest-raises:' + type(ex).__name__, 'msg': repr(ex)})
+            finally:
+                os.chdir(cwd)
+                harness.forget_modules(modname)
+            exp = {n: base[(cfg, n, None)][0] for n in hist}
+            if not atoms and got != exp:
+                diff = {n: (got.get(n), exp[n]) for n in hist if got.get(n) != exp[n]}
+                atoms.append({'sig': 'isolation:pytest-order:' + ','.join(sorted(diff)),
+                              'msg': 'default options %s, order %r: (pytest session, alone) %r' % (cfg, list(hist), diff)})
+        return {'atoms': atoms, 'n': len(hist), 'outcome': ','.join(got.get(n, '?') for n in hist),
+                'case': {'default_options': cfg, 'order': list(hist)}, 'nontrivial': 1}
+
+
 def specs(tier):
     if tier == 'thorough':
-        return [HistorySpec('histories<=4', 4), RunnerOrderSpec('runner-orders<=3', 3)]
-    return [HistorySpec('histories<=3', 3), RunnerOrderSpec('runner-orders=2', 2)]
+        return [HistorySpec('histories<=4', 4), RunnerOrderSpec('runner-orders<=3', 3), PytestOrderSpec('pytest-orders<=3', 3)]
+    return [HistorySpec('histories<=3', 3), RunnerOrderSpec('runner-orders=2', 2), PytestOrderSpec('pytest-orders=2', 2)]
